@@ -98,6 +98,17 @@ class ChanProg:
                     chans.append((ch, data))
                 else:
                     chans.append((ch, ch))
+            if P.get("gc"):
+                # a cyclic-garbage channel of this gateway: the collector may finalize it (and send its
+                # close frame) at any statement of the sending path of this process
+                from engine import instrument
+
+                g = gw.newchannel()
+                cyc = [g]
+                cyc.append(cyc)
+                del g, cyc
+                w.gc_mask = instrument.select(lambda m, q, l: (m == "gateway_base" and q in ("BaseGateway._send", "Message.to_io", "Channel.send", "Popen2IO.write", "SocketIO.write", "Message.__init__")) or (m == "gateway_io" and q.startswith("ProxyIO.write")))
+                w.gc_proc = S.proc
             w.exploring = True
             for ci, C in enumerate(P["channels"]):
                 ctl, data = chans[ci]
